@@ -23,7 +23,8 @@ def run_one(prop, ent, tier='quick', extra=()):
     try:
         shutil.copytree(os.path.join(REPO, 'bronzebeard'), os.path.join(d, 'bronzebeard'), ignore=shutil.ignore_patterns('__pycache__'))
         if 'patch' in ent:
-            pr = subprocess.run(['patch', '-p1', '-s', '-d', d, '-i', ent['patch']], capture_output=True, text=True)
+            pfile = ent['patch'] if os.path.isabs(ent['patch']) else os.path.join(VERIF, ent['patch'])
+            pr = subprocess.run(['patch', '-p1', '-s', '-d', d, '-i', pfile], capture_output=True, text=True)
             if pr.returncode != 0:
                 return {'name': ent['name'], 'status': 'edit-does-not-apply', 'lines': [pr.stdout[-200:]]}
         for e in ([] if 'patch' in ent else ([ent] if 'old' in ent else ent['edits'])):
